@@ -195,6 +195,7 @@ func (r *rewriter) rewriteFile() {
 	writes := map[ast.Expr]bool{}  // selectors in write position
 	skip := map[ast.Expr]bool{}    // selectors not to wrap (operand of &, handled specially)
 	rangeKind := map[*ast.RangeStmt]string{}
+	atomicArg := map[*ast.UnaryExpr]bool{}
 	// pre-pass: classify contexts on the original tree
 	ast.Inspect(r.file, func(n ast.Node) bool {
 		switch v := n.(type) {
@@ -226,6 +227,18 @@ func (r *rewriter) rewriteFile() {
 			if id, ok := v.Fun.(*ast.Ident); ok && id.Name == "delete" && len(v.Args) == 2 {
 				if _, isBuiltin := r.info.Uses[id].(*types.Builtin); isBuiltin {
 					r.markWrites(v.Args[0], writes)
+				}
+			}
+			// &x.f handed to a sync/atomic function is an atomic access, not a plain write
+			if se, ok := v.Fun.(*ast.SelectorExpr); ok {
+				if pid, ok := se.X.(*ast.Ident); ok {
+					if pn, ok := r.info.Uses[pid].(*types.PkgName); ok && pn.Imported().Path() == "sync/atomic" {
+						for _, a := range v.Args {
+							if u, ok := a.(*ast.UnaryExpr); ok && u.Op == token.AND {
+								atomicArg[u] = true
+							}
+						}
+					}
 				}
 			}
 		case *ast.UnaryExpr:
@@ -267,6 +280,9 @@ func (r *rewriter) rewriteFile() {
 						continue
 					}
 					break
+				}
+				if atomicArg[n] {
+					return true
 				}
 				if where, ok := r.fieldSel(x); ok && skip[x] {
 					// &x.f: the address escapes to a callee that may mutate through it
